@@ -659,4 +659,98 @@ theorem sha256_length (msg : Ark.Sha256.Bytes) : (Ark.Sha256.sha256 msg).length 
   | [a, b, c, d, e, f, g, i], _ => simp [beBytes_length]
 end sha
 
+/-! ## 4. the isogeny -/
+
+section iso
+variable {F : Type} [Field F] [DecidableEq F]
+
+/-- Horner evaluation (low degree first) -/
+def horner (cs : List F) (x : F) : F := cs.foldr (fun c r => r * x + c) 0
+
+theorem polyEval_eq_horner (cs : List F) (x : F) : polyEval cs x = horner cs x := by
+  unfold polyEval horner
+  cases cs with
+  | nil => rfl
+  | cons c0 cs =>
+    by_cases hx : x = 0
+    · simp [hx]
+    · simp only [if_neg hx]
+
+omit [DecidableEq F] in
+theorem horner_append (l r : List F) (x : F) :
+    horner (l ++ r) x = horner l x + x ^ l.length * horner r x := by
+  induction l with
+  | nil => simp [horner]
+  | cons c l ih =>
+    have h1 : horner (c :: (l ++ r)) x = horner (l ++ r) x * x + c := rfl
+    have h2 : horner (c :: l) x = horner l x * x + c := rfl
+    rw [List.cons_append, h1, h2, ih, List.length_cons, pow_succ]; ring
+
+omit [DecidableEq F] in
+theorem horner_zeros (l : List F) (x : F) (h : ∀ c ∈ l, c = 0) : horner l x = 0 := by
+  induction l with
+  | nil => rfl
+  | cons c l ih =>
+    have h2 : horner (c :: l) x = horner l x * x + c := rfl
+    rw [h2, ih (fun c hc => h c (List.mem_cons_of_mem _ hc)), h c (List.mem_cons_self)]; ring
+
+theorem horner_polyOfSlice (cs : List F) (x : F) : horner (polyOfSlice cs) x = horner cs x := by
+  have h := List.takeWhile_append_dropWhile (p := fun c : F => decide (c = 0)) (l := cs.reverse)
+  have h' : cs = (cs.reverse.dropWhile (fun c => decide (c = 0))).reverse ++
+      (cs.reverse.takeWhile (fun c => decide (c = 0))).reverse := by
+    rw [← List.reverse_append, h, List.reverse_reverse]
+  have hz : horner (cs.reverse.takeWhile (fun c => decide (c = 0))).reverse x = 0 := by
+    apply horner_zeros
+    intro c hc
+    rw [List.mem_reverse] at hc
+    simpa using List.mem_takeWhile_imp hc
+  conv_rhs => rw [h', horner_append, hz, mul_zero, add_zero]
+  rfl
+
+omit [DecidableEq F] in
+theorem evalPoly_fold (ks : List F) (x acc pw : F) :
+    (ks.foldl (fun (acc : F × F) k => (acc.1 + k * acc.2, acc.2 * x)) (acc, pw)).1 =
+      acc + pw * horner ks x := by
+  induction ks generalizing acc pw with
+  | nil => simp [horner]
+  | cons k ks ih =>
+    have h2 : horner (k :: ks) x = horner ks x * x + k := rfl
+    rw [List.foldl_cons, ih, h2]; ring
+
+omit [DecidableEq F] in
+theorem evalPoly_eq_horner (ks : List F) (x : F) : Rfc.evalPoly ks x = horner ks x := by
+  unfold Rfc.evalPoly
+  rw [evalPoly_fold]; ring
+
+/-- `DensePolynomial::from_coefficients_slice(cs).evaluate(x)` is `Σ cs_i x^i` -/
+theorem polyEval_polyOfSlice (cs : List F) (x : F) :
+    polyEval (polyOfSlice cs) x = Rfc.evalPoly cs x := by
+  rw [polyEval_eq_horner, horner_polyOfSlice, evalPoly_eq_horner]
+
+theorem batchInv_two (vx vy : F) (hx : vx ≠ 0) (hy : vy ≠ 0) :
+    (opsOf (F := F)).batchInvMul [vx, vy] 1 = some [vx⁻¹, vy⁻¹] := by
+  have hxy : (1 : F) * vx * vy ≠ 0 := by simp [hx, hy]
+  simp only [Ops.batchInvMul, Ops.prefixProds, opsOf, hx, hy, decide_false, Bool.false_eq_true, if_false,
+    List.getLast?_cons_cons, List.getLast?_singleton, Option.getD_some, if_neg hxy,
+    List.reverse_cons, List.reverse_nil, List.nil_append, List.cons_append, List.drop_succ_cons,
+    List.drop_zero, Ops.batchBack]
+  congr 2
+  · field_simp
+  · congr 1; field_simp
+
+/-- `IsogenyMap::apply` is the RFC's `iso_map` (identity exactly at the poles), never panics -/
+theorem isoApply_eq (iso : Iso F) (x y : F) :
+    isoApply iso (some (x, y)) = .ok (Rfc.isoMap iso (x, y)) := by
+  unfold isoApply Rfc.isoMap
+  simp only [polyEval_polyOfSlice]
+  by_cases h : Rfc.evalPoly iso.xDen x = 0 ∨ Rfc.evalPoly iso.yDen x = 0
+  · rw [if_pos h, if_pos h]
+  · rw [if_neg h, if_neg h]
+    rw [not_or] at h
+    rw [batchInv_two _ _ h.1 h.2]
+    refine congrArg (fun p => Outcome.ok (some p)) (Prod.ext ?_ ?_)
+    · simp only [div_eq_mul_inv]
+    · simp only [div_eq_mul_inv]; ring
+end iso
+
 end Ark.H2C.P
